@@ -133,9 +133,9 @@ def silu_glu(input: Tensor, gate: Tensor, mult: float = 1.0) -> Tensor:
 
 
 def _unscaled_softmax(
-    x: Tensor, dim: int, dtype: Optional[torch.dtype], mult: float
+    x: Tensor, dim: int, dtype: Optional[torch.dtype], mult: float, _stacklevel: int
 ) -> Tensor:
-    return F.softmax(x * mult, dim=dim, dtype=dtype)
+    return F.softmax(x * mult, dim=dim, _stacklevel=_stacklevel, dtype=dtype)
 
 
 @docstring_from(
@@ -149,7 +149,9 @@ def softmax(
     dtype: Optional[torch.dtype] = None,
     constraint: Optional[str] = "to_output_scale",
     mult: float = 1.0,
+    _stacklevel: int = 3,
 ) -> Tensor:
+    # `_stacklevel` is accepted (and forwarded) as `torch.nn.Softmax` passes it to `F.softmax`
     dim_size = input.shape[dim]
     # Empirical model
     output_scale = logarithmic_interpolation(
@@ -165,7 +167,9 @@ def softmax(
     scaled_softmax = scale_elementwise(
         _unscaled_softmax, output_scale, grad_input_scale, constraint
     )
-    return scaled_softmax(input, dim=dim, dtype=dtype, mult=mult)
+    return scaled_softmax(
+        input, dim=dim, dtype=dtype, mult=mult, _stacklevel=_stacklevel
+    )
 
 
 @docstring_from(
